@@ -105,6 +105,16 @@ Proof.
   pose proof (add_roots_order_free pi1 pi2 H1 H2 fuel roots [] Hwf) as E. split; [exact E|rewrite E; reflexivity].
 Qed.
 
+(* the registry as it was before 3d2c96f / f6d4b31 (reg_add_old) kept a replaced root package in rootobjects and its
+   sub-modules in unprocessed_modules; the repaired one does not (two roots p, the second replaces the first) *)
+Example C18_replaced_package_registry :
+  let evs := [EvModule [] [112%N] true; EvModule [[112%N]] [97%N] false; EvModule [] [112%N] true] in
+  let r := reg_of_events evs in
+  let r_old := fold_left (fun r e => match e with EvModule p n k => reg_add_old r p n k | _ => r end) evs (mkReg [] [] [] 0%N) in
+  r_roots r = [[112%N]] /\ map m_path (r_unproc r) = [[[112%N]]] /\
+  r_roots r_old = [[112%N]; [112%N]] /\ map m_path (r_unproc r_old) = [[[112%N]; [97%N]]; [[112%N]]].
+Proof. vm_compute. repeat split; reflexivity. Qed.
+
 (* ... and the fuel of the model never runs out when it is at least the depth of the tree *)
 Theorem C18_fs_fuel_enough :
   forall (pi : listing), perm_oracle pi -> forall fuel parent name es,
